@@ -313,13 +313,38 @@ NOT_YET = {
 }
 
 
+# the less-travelled routes added after the eighth seed round (the property holds for every way of reaching the code)
+ROUTES = {
+    "C01": "decoders that also write a dump file (of everything / of other PGNs only) and messages looked at again after to_json(), str() and get_field_by_id().",
+    "C02": "the EByte, USB and Yacht Devices encode routes, one long-lived encoder each, definitions in database order; the payload is reassembled from the packets.",
+    "C03": "fast-packet messages sent through real clients' send() with the link lost and re-established in between (the counter differs all the same).",
+    "C04": "whole bystander messages of the streams' PGNs arrive through the already_combined and Actisense routes between the frames.",
+    "C05": "identifiers whose address bytes look like framing bytes (0xAA, 0x55, CR, LF) through the receive paths of the real clients.",
+    "C06": "a second history pass with a decoder that also writes a dump file and gets the binary packets as mutable buffers.",
+    "C07": "network-map decoders past their discovery window across all nine renderings (the time stamps in the text formats are far from the wall clock).",
+    "C09": "the base request of every definition through the three packet-producing encode routes.",
+    "C10": "directed histories delivered in one input format from the first step to the last, per format.",
+    "C11": "claim / data histories through the four real clients built with the configuration's options, the link replaced at a chosen step (replay_through_client; a lost link is a stuttering step of the decoder model).",
+    "C12": "clients built with options (network map, units, filters, manufacturer list, dump file; the reference decoder gets the same), the link replaced between two parts of the traffic, the receive callback registered after connect() or replaced while idle; identity of a delivery includes hash, source identity and units.",
+    "C13": "clients built with network mapping on (they send their own requests after every connection) under faults next to those requests.",
+    "C14": "close() called twice (the second inside the first's notification) and a first close() abandoned by its caller.",
+    "C15": "messages obtained through decode_tcp / decode_usb from bytes and from mutable buffers, fast messages frame by frame.",
+    "C17": "the same payloads as delivered by the four real clients built with network mapping on and off.",
+    "C18": "the same preferences in decoders that also write a dump file (of everything / of other PGNs only).",
+    "C19": "unsendable messages handed to a client that was never connected.",
+    "C20": "periods in which no receive callback is registered (what the client holds back stays bounded; packets complete meanwhile are nobody's).",
+}
+
+
 def main():
     props = [json.loads(l)["id"] for l in (VERIF / "properties.jsonl").read_text().splitlines() if l.strip()]
     checks = []
     for pid in props:
         if pid not in CHECKS:
             continue
-        c = CHECKS[pid]
+        c = dict(CHECKS[pid])
+        if pid in ROUTES:
+            c["text"] = c["text"] + " Other routes to the same mechanism (same verdicts): " + ROUTES[pid]
         checks.append({
             "property_id": pid,
             "quick_cmd": f"./check {pid} --tier quick",
